@@ -22,9 +22,11 @@ import (
 func init() {
 	fw.Register(&fw.Prop{
 		ID:                  "C03",
-		DeadlockIsViolation: true,                       // the calls of this property are synchronous functions of their inputs: a call blocked for good inside the library is a violation
-		Builds:              []string{"default", "386"}, // the 386 build runs 1/4 of the random classes on a 32-bit target
-		Scale386:            4,
+		DeadlockIsViolation: true,                               // the calls of this property are synchronous functions of their inputs: a call blocked for good inside the library is a violation
+		Builds:              []string{"default", "386", "race"}, // the 386 build runs 1/4 of the random classes on a 32-bit target
+		// race build: only the classes in which several goroutines are inside the library at once, under the race detector
+		RaceClasses: []string{"concurrent"},
+		Scale386:    4,
 		Rule: "wordlist: all 2048 indices of both built-in lists are read through EntropyToMnemonic (11 chosen indices per call) and compared with the official lists (embedded, SHA-256 checked against the published digests). encode: both lists x all 13 entropy lengths x {all-zero, all-one, k leading zero bytes for every k, trailing zero bytes, a single set bit at every position, random} plus sizes 0..70 for the size rule; sentence equality with the bit-level model and decode(encode(e)) == e. decode: valid sentences, the last word replaced by every word sharing its entropy bits (exactly one checksum value is accepted), one word replaced, rotations, lengths 0..50, words of the other list, NFC-composed words, empty strings, and (decode_collide) a list word replaced by a non-word found by search to collide with it under FNV-1a/32, FNV-1/32, CRC-32, CRC-32C, Adler-32, h*31+c, h*33+c, folded FNV-1a/64 or truncated SHA-256: accept iff the model accepts, entropy equality, re-encode fixed point, error class on reject. lists: every eighth case is preceded by a SetWordList call with an unregistered key (it must fail; the list of the last successful call stays in force); a user-defined list (English reversed, registered through RegisterWordList with a constructor that calls back into SetWordList) is selected for a few cases between the built-in ones; decode also gets sentences in which two adjacent words sit in one element, and sentences with words cut to their unique four-letter prefix. concurrent: 8 goroutines encode and decode entropies of all 13 sizes at once under one word list. " +
 			"Non-trivial: distinct (list, entropy) with a zero leading byte or more than 32 bytes, and distinct rejected sentences.",
 		Assumptions: []string{"SHA-256 of the Go standard library", "the embedded official word lists (checked against the published SHA-256 digests of english.txt and japanese.txt)", "the bit-level model in harness/oracle/bip39m (self-tested on Trezor vectors)"},
@@ -364,6 +366,15 @@ func emitWords(g *fw.Gen, l byte, words []string) {
 }
 
 func gen(g *fw.Gen) {
+	if g.Build == "race" {
+		// race build: only the class in which several goroutines are inside the library at once is generated
+		for l := byte(0); l < 2; l++ {
+			for n := g.ShareOf(16, 800); n > 0; n-- {
+				g.Emit("concurrent", fw.Pack([]byte{l}, fw.U64(g.Rng.Uint64())))
+			}
+		}
+		return
+	}
 	// language phases, so the process-wide list is switched only a few times per shard
 	for l := byte(0); l < 2; l++ {
 		list := bip39m.Lang(lang(l))
